@@ -11,7 +11,8 @@ The modelled design (built for real in vf/props/c03.py):
                  rs[0] <= ~rl[0] (sync)  rs[1] <= ~rlb (other): a RESET_LESS signal split between the two domains]
   leaf module : sp[1] (bit 1 of sp, toggles, domain other -- sync in single-domain designs)
                 memory 2 x 1 bit, write port (sync): mem[cnt[0]] <= d, en = 1
-                                  sync read port (sync): rdata <= mem[rl], en = 1, not transparent      (ports "n"/"nt")
+                                  sync read port (sync; domain other with cfg rpdom="other"): rdata <= mem[rl[0]],
+                                                         en = 1, not transparent                        (ports "n"/"nt")
                                   sync read port (sync): tdata <= mem[d],  en = 1, transparent_for=(write port,)  ("t"/"nt")
                 obs = Cat(ClockSignal("sync"), ResetSignal("sync", allow_reset_less=True))   (combinational)
                 (cfg "order": "ab" = the module uses m.d.sync before m.d.other, "ba" = the other way round)
@@ -27,7 +28,8 @@ Semantics implemented here (the statement, literally):
     value; otherwise hold;
   * wrappers are applied innermost first; a wrapper acts on an element iff the element lies inside the wrapped
     module (submodules included) and its *current* domain name is one the wrapper names; DomainRenamer changes the
-    current name; an enable freezes (ANDs into) everything already present on the element: its update and the
+    current name (all entries of its map are substituted simultaneously: an element in X goes to map.get(X, X), once);
+    an enable freezes (ANDs into) everything already present on the element: its update and the
     resets inserted before; it never touches the domain reset nor wrappers applied later;
   * obs shows the clock level and the reset level (0 for a reset-less domain) of the domain the leaf's "sync"
     finally is, whatever the inserted controls are (inserters never affect combinational logic);
@@ -49,6 +51,8 @@ WRAPPERS = {
     "DR": ("rename", {"sync": "other"}),
     "DX": ("rename", {"sync": "other", "other": "sync"}),      # swap (thorough tier only)
     "DM": ("rename", {"sync": "tgt", "other": "tgt"}),         # merges two source domains into a third one
+    "DC": ("rename", {"sync": "other", "other": "tgt"}),       # a chain, listed in the order of the chain
+    "DCr": ("rename", {"other": "tgt", "sync": "other"}),      # the same chain, listed the other way round
 }
 CONTROLS = ("r1", "r2", "ra", "rb", "e1", "e2", "ea", "eb")
 
@@ -94,7 +98,7 @@ class Model:
         self.ports = cfg.get("ports", "n")
         self.rports = []
         if "n" in self.ports:
-            self.rports.append(Elem("rdata", 1, False, "sync", "leaf", kind="rdata"))
+            self.rports.append(Elem("rdata", 1, False, cfg.get("rpdom", "sync"), "leaf", kind="rdata"))
         if "t" in self.ports:
             self.rports.append(Elem("tdata", 1, False, "sync", "leaf", kind="rdata"))
         elems += self.rports
@@ -128,6 +132,9 @@ class Model:
             if WRAPPERS[w][0] == "rename" and not all(t in doms for t in WRAPPERS[w][1].values()):
                 raise ValueError("DomainRenamer needs its target domain")
         self.merge_flags = self._classify_renames(cfg)
+        ws = list(cfg["sub"]) + list(cfg["top"])
+        self.static_flags = tuple(f for w, f in (("DX", "rename_exchange"), ("DC", "rename_chain"), ("DCr", "rename_chain_reverse_listing"))
+                                  if w in ws)
         self.controls = [c for c in CONTROLS if c in used]
         self.obs_dom = self.wp.dom        # what the leaf calls "sync" is finally this domain (the ports never leave it)
         self.sync_inputs = ["d"] + self.controls + [f"rst_{n}" for n in self.dom_names if self.rkind[n] == "sync"]
@@ -241,7 +248,7 @@ class Model:
         flags = []
         new = dict(v)
         rows2 = list(rows)
-        alts = {}                 # read-port data registers whose behaviour under a reset is left open: name -> init
+        alts = {}                 # read-port data registers whose behaviour is left open: name -> set of other allowed values
         why = {}
         if kind == "r":
             dom = self.arst_doms[arg]
@@ -253,7 +260,7 @@ class Model:
                     if e.dom != dom:
                         continue
                     if e.kind == "rdata":
-                        alts[e.name] = e.init       # unspecified: hold or init
+                        alts.setdefault(e.name, set()).add(e.init)       # unspecified: hold or init
                         why[e.name] = "async-reset-rise"
                     elif e.reset_less:
                         flags.append("async_rise_leaves_reset_less")
@@ -290,6 +297,8 @@ class Model:
                 mine, its = ("ea", "eb") if active[0] == "sync" else ("eb", "ea")
                 if iv.get(mine) and not iv.get(its, 1):
                     flags.append("idle_domain_enable_control_deasserted")
+            if active:
+                flags += self.static_flags
             for dom in active:
                 flags += self.merge_flags.get(dom, ())
                 dr = self._dom_reset(dom, iv, lv)
@@ -317,12 +326,19 @@ class Model:
                         if en:
                             new[e.name] = val
                             flags.append("transparent_read" if transparent else "mem_read")
+                            if e.dom != self.wp.dom:
+                                flags.append("read_port_in_another_domain_than_write_port")
+                                if self.wp.dom in active and all(iv[c] for c in self.wp.ens) and (v["cnt"] & 1) == addr:
+                                    # both clocks edge in the same instant and the row read is being written from the
+                                    # other domain: nothing says whether the old or the new contents are seen
+                                    alts.setdefault(e.name, set()).add(iv["d"])
+                                    flags.append("cross_domain_read_and_write_same_instant")
                         else:
                             flags.append("transparent_read_gated_by_enable" if transparent else "mem_read_gated_by_enable")
                             if val != v[e.name]:
                                 flags.append("gated_transparent_read_would_change" if transparent else "gated_read_would_change")
                         if what in ("domain-reset", "inserted-reset"):
-                            alts[e.name] = e.init     # unspecified: normal behaviour or init
+                            alts.setdefault(e.name, set()).add(e.init)     # unspecified: normal behaviour or init
                     elif what in ("domain-reset", "inserted-reset"):
                         new[e.name] = e.init
                     elif what == "update":
@@ -349,8 +365,8 @@ class Model:
         rows2 = tuple(rows2)
         cands = [packed]
         for e in self.rports:
-            if e.name in alts:
-                cands += [(p & ~(1 << e.off)) | (alts[e.name] << e.off) for p in cands]
+            for alt in alts.get(e.name, ()):
+                cands += [(p & ~(1 << e.off)) | (alt << e.off) for p in cands]
         allowed = {(p, rows2, lv2) for p in cands}
         self._why = why
         return allowed, tuple(flags), lv2
